@@ -1624,7 +1624,7 @@ def _x6_lcfg(rng, archs=None):
         want = ("armhf" if "armv7l" in archs else "i686" if "i686" in archs else "x86_64")
         exe = E.build(E.exe_for(want))
     elif r < 0.9:
-        exe = E.build(E.exe_for(rng.choice(["x86_64", "i686", "armhf", "armhf2", "armel", "arm-eabi4", "arm-be", "aarch64", "i386-be"])))
+        exe = E.build(E.exe_for(rng.choice(["x86_64", "i686", "armhf", "armhf2", "armel", "arm-eabi4", "arm-eabi7", "arm-eabiff", "arm-be", "aarch64", "i386-be"])))
     else:
         exe = E.build(E.gen_desc(rng, huge=False))
     ld = rng.choice(X6_MUSL_OUT)
